@@ -6,5 +6,6 @@ CONSTANTS
   Caps = {}
   Grows = {}
   Pres = {}
+INVARIANT AtEnd
 POSTCONDITION TraceAccepted
 CHECK_DEADLOCK FALSE
